@@ -9,6 +9,10 @@
                                  kind = n (nothing) | e (error) | r<i>+<j>… (returns these pool events)
                                  unlisted IDs: nothing.  A multi-ID request fails if any ID is `e`,
                                  else returns the concatenation of the per-ID answers.
+                                 An entry `max=<k>` anywhere in the list: the provider hands out AT MOST k events per
+                                 call (the first k of that concatenation) — batch answers then differ from the
+                                 per-ID answers, and what a batch leaves out is fetched by the single-ID retry of
+                                 checkAllowedByAuthEvents.
      sprov    -  |  ent|ent…     ent = <ev i>;<IDS>;<STATE>   IDS/STATE = e | - | i,i,…  (default: empty, empty)
      order    -  |  i,i,…        what ReverseTopologicalOrdering returned for the parsed events (given)
      sigcls   -  |  c,c,…        (optional last argument of state / sendjoin) per pool entry the index of the first
@@ -124,15 +128,32 @@ def parseKind (k : String) : Kind :=
 def parseProvTable (env : Env) (s : String) : List (Bytes × Kind) :=
   (splitList s ",").filterMap (fun ent =>
     match ent.splitOn "=" with
+    | ["max", _] => none
     | [k, v] => some (parseKey env k, parseKind v)
     | _ => none)
 
-def provOfTable (env : Env) (tbl : List (Bytes × Kind)) : EventProvider := fun ids =>
+/-- the `max=<k>` entry of a provider script: at most k events per call -/
+def parseProvCap (s : String) : Option Nat :=
+  (splitList s ",").findSome? (fun ent =>
+    match ent.splitOn "=" with
+    | ["max", v] => some v.toNat!
+    | _ => none)
+
+def provOfTableCap (env : Env) (tbl : List (Bytes × Kind)) (cap : Option Nat) : EventProvider := fun ids =>
   let kinds := ids.map (fun id => (tbl.lookup id).getD .nothing)
   if kinds.any (fun k => match k with | .error => true | _ => false) then .error
-  else .events (kinds.flatMap (fun k => match k with
-    | .ret is => env.evs is
-    | _ => []))
+  else
+    let evs := kinds.flatMap (fun k => match k with
+      | .ret is => env.evs is
+      | _ => [])
+    .events (match cap with
+      | some k => evs.take k
+      | none => evs)
+
+def provOfTable (env : Env) (tbl : List (Bytes × Kind)) : EventProvider := provOfTableCap env tbl none
+
+/-- the provider a script denotes -/
+def provOfScript (env : Env) (s : String) : EventProvider := provOfTableCap env (parseProvTable env s) (parseProvCap s)
 
 /-- the provider script as a table, when it abides by the contract: every `r` entry returns exactly one
     event, which carries the requested ID.  `none` = outside the contract. -/
@@ -154,20 +175,29 @@ def contractTable (env : Env) (tbl : List (Bytes × Kind)) : Option ((Bytes → 
     VerifyEventAuthChain (it asks only for auth event IDs of the event under verification and of events it
     was handed), so what they say is irrelevant.  `none` = some ID in play has an entry outside the contract
     (or the fuel ran out). -/
-def contractOn (env : Env) (tbl : List (Bytes × Kind)) : Nat → List Bytes → List Bytes → Bool
+def contractOn (env : Env) (tbl : List (Bytes × Kind)) (needState : Bool) : Nat → List Bytes → List Bytes → Bool
   | 0, _, _ => false
   | _ + 1, [], _ => true
   | n + 1, id :: todo, done =>
-    if done.contains id then contractOn env tbl n todo done
+    if done.contains id then contractOn env tbl needState n todo done
     else match tbl.lookup id with
       | some (.ret [i]) =>
-        if (env.ev i).eventID == id then contractOn env tbl n ((env.ev i).authEventIDs ++ todo) (id :: done) else false
+        if (env.ev i).eventID == id && (!needState || (env.ev i).stateKey.isSome)
+        then contractOn env tbl needState n ((env.ev i).authEventIDs ++ todo) (id :: done) else false
       | some (.ret _) => false
-      | _ => contractOn env tbl n todo (id :: done)
+      | _ => contractOn env tbl needState n todo (id :: done)
 
-def contractTableOn (env : Env) (tbl : List (Bytes × Kind)) (roots : List Event) (selfIDs : List Bytes) :
+/-- `cap` = the script's `max=<k>` entry.  A provider that hands out at most k ≥ 1 events per call still abides by
+    the contract "asked for ONE event it answers with that event, nothing, or an error"; what a batch answer leaves
+    out, the single-ID retry of checkAllowedByAuthEvents obtains — so the specification is the same table.  For such
+    providers the events held for the IDs in play must be state events (auth events are): the code treats a
+    non-state event differently when it arrives in a batch (AddEvent error) and when it arrives in a retry (ignored),
+    and C14 says nothing about providers that answer a request for an auth event with a message. k = 0: never
+    answers, outside the contract. -/
+def contractTableOn (env : Env) (tbl : List (Bytes × Kind)) (cap : Option Nat) (roots : List Event) (selfIDs : List Bytes) :
     Option ((Bytes → Option Event) × (Bytes → Bool)) :=
-  if !contractOn env tbl 4000 (roots.flatMap (·.authEventIDs)) selfIDs then none else
+  if cap == some 0 then none else
+  if !contractOn env tbl cap.isSome 4000 (roots.flatMap (·.authEventIDs)) selfIDs then none else
   some (fun id => match tbl.lookup id with
           | some (.ret [i]) => if (env.ev i).eventID == id then some (env.ev i) else none
           | _ => none,
@@ -176,7 +206,7 @@ def contractTableOn (env : Env) (tbl : List (Bytes × Kind)) (roots : List Event
           | _ => false)
 
 def parseProv (env : Env) (s : String) : Option EventProvider :=
-  if s == "nil" then none else some (provOfTable env (parseProvTable env s))
+  if s == "nil" then none else some (provOfScript env s)
 
 def parseIdxOpt (s : String) : Option (List Nat) := if s == "e" then none else some (natList s)
 
@@ -285,13 +315,13 @@ def handle (op : String) (args : Array String) : Option String :=
     | some es =>
       let env : Env := { pool := es.toArray }
       let O := authOracles []
-      let p := provOfTable env (parseProvTable env prov)
+      let p := provOfScript env prov
       let r := match verifyEventAuthChain O p caFuel chainFuel (env.ev root.toNat!) [] with
         | (.ok, log) => "ok" ++ showLog env log
         | (.provErr, log) => "err:provider" ++ showLog env log
         | (.authFail, log) => "err:auth" ++ showLog env log
         | (.outOfFuel, _) => "diverge"
-      let sp := match contractTableOn env (parseProvTable env prov) [env.ev root.toNat!] [(env.ev root.toNat!).eventID] with
+      let sp := match contractTableOn env (parseProvTable env prov) (parseProvCap prov) [env.ev root.toNat!] [(env.ev root.toNat!).eventID] with
         | none => "unspecified:provider-contract"
         | some (table, errs) =>
           match Spec.chainAccepts O (env.ev root.toNat!) table errs chainFuel with
@@ -310,6 +340,14 @@ def handle (op : String) (args : Array String) : Option String :=
       let O := authOracles []
       let sp := parseSProv env sprov
       let e := env.ev ev.toNat!
+      -- two events of the returned state in one (type, state_key) slot: which of them `AddEvent` leaves in the
+      -- provider depends on the iteration order of the Go map
+      let dupState : Bool := match sp.ids e with
+        | some ids => (match sp.state e ids with
+          | some kvs => !Spec.nodupB (((kvs.map (·.2)).filter (·.stateKey.isSome)).map Spec.tupleOf)
+          | none => false)
+        | none => false
+      if dupState then some "skip:state-with-two-events-in-one-slot(Go map order decides)" else
       let m := match verifyAuthRulesAtState O sp e (allow == "1") [] with
         | (.ok, log) => "ok" ++ showLog env log
         | (.idsErr, log) => "err:ids" ++ showLog env log
@@ -329,7 +367,7 @@ def handle (op : String) (args : Array String) : Option String :=
     | some es =>
       let env : Env := { pool := es.toArray }
       let O := authOracles ((env.evs (natList badsig)).map (·.eventID))
-      let p := provOfTable env (parseProvTable env prov)
+      let p := provOfScript env prov
       let sp := parseSProv env sprov
       let raw := parseEntries env raws
       let ord : List Event → List Event := fun _ => env.evs (natList order)
@@ -338,7 +376,7 @@ def handle (op : String) (args : Array String) : Option String :=
         | none => "diverge"
         | some (rs, log) => "ok:" ++ toString rs.length ++ ":" ++ showResults env rs ++ showLog env log
       -- specification: one result per input; each parsed event classified by the first check it fails
-      let spec := match contractTableOn env (parseProvTable env prov) (parsedClean raw) [] with
+      let spec := match contractTableOn env (parseProvTable env prov) (parseProvCap prov) (parsedClean raw) [] with
         | none => "unspecified:provider-contract"
         | some (table, errs) =>
           let evs := parsedClean raw
@@ -357,7 +395,7 @@ def handle (op : String) (args : Array String) : Option String :=
     | some es =>
       let env : Env := { pool := es.toArray }
       let O := authOracles ((env.evs (natList badsig)).map (·.eventID))
-      let p := provOfTable env (parseProvTable env prov)
+      let p := provOfScript env prov
       let sp := parseSProv env sprov
       let srv : List ServerAns := (splitList servers "|").map (fun s => if s == "e" then none else some (parseEntries env s))
       let ords : List (List Nat) := (splitList orders "|").map natList
@@ -382,7 +420,7 @@ def handle (op : String) (args : Array String) : Option String :=
       let returned : List Event := toks.map (fun t => env.ev (t.drop 1).toString.toNat!)
       -- every cleanly parsed PDU of every answering server
       let answers : List Event := (splitList servers "|").flatMap (fun s => if s == "e" then [] else parsedClean (parseEntries env s))
-      match contractTableOn env (parseProvTable env prov) answers [] with
+      match contractTableOn env (parseProvTable env prov) (parseProvCap prov) answers [] with
       | none => some "ok\tunspecified:provider-contract"
       | some (table, errs) =>
         let verdicts := returned.map (fun e => (e, Spec.backfillEventOK O table errs sp chainFuel (fun x => answers.any (sameEvent x)) e))
